@@ -1,6 +1,7 @@
 import QF.Drv.Hist
 import QF.Drv.Csv
 import QF.Drv.SortAdv
+import QF.Drv.Ryu
 /-
 qfdriver: replays a harness transcript (stdin) through the Lean model and spec.
 Output: one line per mismatch
@@ -55,6 +56,9 @@ partial def loop (h : IO.FS.Stream) (st : DState) (lineNo : Nat) : IO DState := 
       loop h st (lineNo + 1)
     | "sortadv" =>
       let st ← emit st lineNo (sortAdvLine toks)
+      loop h st (lineNo + 1)
+    | "ryu" =>
+      let st ← emit st lineNo (ryuLine toks)
       loop h st (lineNo + 1)
     | _ => loop h st (lineNo + 1)
   | none => loop h st (lineNo + 1)
